@@ -23,6 +23,18 @@ CLAIMED = {
   "technique": "Lean 4 proof (decision logic stated outright over the C15 reachability theorem) + model-vs-implementation correspondence",
   "design_ref": "4 C02",
  },
+ "C06": {
+  "text": "Lean 4 theorems for arbitrary version lists (the code iterates a HashMap): the selection fold returns the greatest candidate (resolveVersion_is_max / none_iff / hadHigher_iff, by a fold invariant), is invariant under permutation of the registry map, and the four tiers are characterised exactly: highest already-selected version with the registry's yanked flag; else highest cached unyanked date-ok (when any manifest is cached); else highest unyanked date-ok; else highest yanked date-ok flagged yanked; else not-found reporting the cutoff iff some registry version satisfies the requirement; excluded packages ignore the date; jsr_unification_decides is true exactly when tier 1 answers. Tied to /repo by differential execution of JsrVersionResolver::get_for_package(..).resolve_version(..) over an enumerated domain (registries of <=3 of 5 versions x yanked x date class x 9 requirements x selected x cached x cutoff) with VersionReq::matches tabulated from deno_semver, plus a brute-force oracle.",
+  "note": "deno_semver's order and matching are tabulated per run and trusted; version tags are rejected by deno_semver's RangeSetOrTag constructor (graph-level check with the registry worlds of C07). Graph-level bookkeeping (mappings, used_yanked_packages) is exercised with C07.",
+  "technique": "Lean 4 proof (fold invariant, max characterisation, permutation invariance) + enumerated model-vs-implementation correspondence",
+  "design_ref": "4 C06",
+ },
+ "C20": {
+  "text": "Lean 4 theorems over all byte strings and charsets: try_get_original_bytes returns nothing or exactly the loader's bytes (original_bytes_faithful, also end to end through charset choice, for any behaviour of the non-modelled decoders), 'unchanged' under UTF-8 means text = input and input valid UTF-8, 'only BOM' means input = EF BB BF ++ text, a BOM is stripped exactly once on both paths, size is the text's byte length, unknown labels are errors and UTF-8/UTF-16 never are, header > BOM sniffing (file: only) > UTF-8. The WHATWG UTF-8 and UTF-16LE/BE decoders are modelled byte by byte and tied to /repo by exhaustive differential execution through real one-module builds (all 1885 byte strings of length <=3 over a 12-byte alphabet covering every decoder state, x 7 charset headers x 2 schemes x JSON/JS) plus generated inputs; an independent std-based oracle checks the decoded text.",
+  "note": "encoding_rs for labels other than UTF-8/UTF-16 is a parameter (its answer is fed to the model); the pointer-level validity of the Arc<str>/Arc<[u8]> transmute is a memory-model fact outside any functional model - the theorem gives its functional precondition.",
+  "technique": "Lean 4 proof (case analysis over the decoding pipeline for all inputs) + exhaustive small-domain model-vs-implementation correspondence",
+  "design_ref": "4 C20",
+ },
 }
 NOT_APPLICABLE = {}
 ALL = [f"C{i:02d}" for i in range(1, 21)]
